@@ -127,6 +127,11 @@ def authStr (H : SdnsVerif.Model.Nsec3.HashFn) (i : AuthIn) : String :=
   let k := if !o.marked then "none" else match authFamily i with | .nsec => "nsec" | .nsec3 => "nsec3"
   s!"ok ad={boolStr o.ad} mark={k} agg={boolStr o.aggressive}"
 
+open SdnsVerif.Model.Admission in
+def ansStr (H : SdnsVerif.Model.Nsec3.HashFn) (i : AnsIn) : String :=
+  let o := answerStep H i
+  if o.servfail then "servfail" else s!"ok ad={boolStr o.ad}"
+
 def stepNsec (st : State) (w : List String) : State × String :=
   match w with
   | ["z", "new", apex, cls, nodes] =>
@@ -205,6 +210,13 @@ def stepNsec (st : State) (w : List String) : State × String :=
     match parseName sg, parseName q, t.toNat?, c.toNat? with
     | some sg, some q, some t, some c => (st, aggStr (evaluateAggressiveNSEC q t c sg st.set))
     | _, _, _, _ => (st, "bad-op")
+  | ["z", "ans", sg, sigs, v] =>
+    match parseName sg, parseSigsAns sigs with
+    | some sg, some gs =>
+      let clsOK := st.set.all fun r => !nameInZone r.owner sg || r.cls == 1
+      (st, ansStr (fun _ => none) { signer := sg, gs := gs, reqCD := (v == "cd"), sigsGood := ((v == "good" || v == "cd") && clsOK),
+                                    nsec := st.set, nsec3 := [] })
+    | _, _ => (st, "bad-op")
   | ["z", "authu", sg, q, t, rc, v] =>
     match parseName sg, parseName q, t.toNat? with
     | some sg, some q, some t =>
@@ -315,6 +327,13 @@ def stepNsec3 (st : State) (w : List String) : State × String :=
     | some sg, some gs, some ht =>
       (st, secStr (verifyWildcardNSEC3 (htFn ht) (st.h.set.filter fun r => nameInZone r.owner sg) sg gs))
     | _, _, _ => (st, "bad-op")
+  | ["h", "ans", sg, sigs, v, ht] =>
+    match parseName sg, parseSigsAns sigs, parseHT ht with
+    | some sg, some gs, some ht =>
+      let clsOK := st.h.set.all fun r => !nameInZone r.owner sg || r.cls == 1
+      (st, ansStr (htFn ht) { signer := sg, gs := gs, reqCD := (v == "cd"), sigsGood := ((v == "good" || v == "cd") && clsOK),
+                              nsec := [], nsec3 := st.h.set })
+    | _, _, _ => (st, "bad-op")
   | ["h", "authu", sg, q, t, rc, v, ht] =>
     match parseName sg, parseName q, t.toNat?, parseHT ht with
     | some sg, some q, some t, some ht =>
@@ -395,7 +414,11 @@ def expAsk (st : State) (q : Name) (t : Nat) (H : SdnsVerif.Model.Nsec3.HashFn) 
     | some .nodata => "nodata"
     | none => "miss"
   let c := if lookupCut st.exp q then "hit" else "miss"
-  ({ st with exp := pruneOnLookup st.exp q t H }, s!"proof={pv} cut={c} cutw={c}")
+  -- the deadline a synthesised answer carries (seconds from now): what the private route binds the request tree to
+  let pb := match lookupProofExpiry st.exp H q t with
+    | some e => toString (e - st.exp.now)
+    | none => "-"
+  ({ st with exp := pruneOnLookup st.exp q t H }, s!"proof={pv} cut={c} cutw={c} pb={pb}")
 
 open SdnsVerif.Model.ProofExpiry in
 def expPut (st : State) (zone kind subj qt soa cut : String) (sets : Option (List RRSet)) (sets3 : Option (List RRSet3))
